@@ -111,6 +111,7 @@ Inductive step_out :=
    IsTxInMempoolOrRange returned without error) *)
 Definition confirm_decision (req start limit current raw first : Z) : step_out :=
   if add32 start limit <? first then SCbErr
+  else if current <? first then SContinue      (* first seen above the notified height: wait *)
   else if req <=? sub32 current (sub32 first 1) then SCbOk raw
   else SContinue.
 
